@@ -642,9 +642,26 @@ class DecisionCtx(PCtx):
                 sy = y - (1 << w_) if y >> (w_ - 1) else y
                 return {'eq': x == y, 'ne': x != y, 'ult': x < y, 'ule': x <= y, 'ugt': x > y, 'uge': x >= y,
                         'slt': sx < sy, 'sle': sx <= sy, 'sgt': sx > sy, 'sge': sx >= sy}[c.args[0]]
-        if c.op in ('and', 'or', 'xor') and c.w == 1:
+        if c.op in ('and', 'or') and c.w == 1:
+            # three-valued evaluation: an operand that is already decided and fixes the result spares the comparisons of the other one
+            # (a path is only forked on a comparison the result really depends on)
+            need = None
+            vals = []
+            for a_ in c.args[:2]:
+                try:
+                    vals.append(self.decide(a_))
+                except NeedAtom as e:
+                    vals.append(None)
+                    need = need or e
+            absorbing = (c.op == 'or')
+            if any(v is absorbing for v in vals):
+                return absorbing
+            if need is not None:
+                raise need
+            return not absorbing
+        if c.op == 'xor' and c.w == 1:
             x, y = self.decide(c.args[0]), self.decide(c.args[1])
-            return (x and y) if c.op == 'and' else (x or y) if c.op == 'or' else (x != y)
+            return x != y
         if c.op == 'select' and c.w == 1:
             return self.decide(c.args[1]) if self.decide(c.args[0]) else self.decide(c.args[2])
         k = ('T', c.id)
